@@ -38,15 +38,15 @@ ANCHORS = [
     ('pjrpc/client/retry.py', 'FibonacciBackoff.__call__'),
     ('pjrpc/client/client.py', 'AbstractClient.retried'), ('pjrpc/client/client.py', 'AbstractAsyncClient.retried'),
 ]
-_OUT = ['ok', 'listed', 'unlisted', 'exc-listed', 'exc-sub', 'exc-unlisted']
+_OUT = ['ok', 'listed', 'unlisted', 'exc-listed', 'exc-sub', 'exc-unlisted', 'exc-chained']
 FLOORS = {'*': {**{f'outcome:{o}:{p}': 10 for o in _OUT for p in ('first', 'middle', 'last')
-                   if not (p == 'middle' and o in ('ok', 'unlisted', 'exc-unlisted'))},
+                   if not (p == 'middle' and o in ('ok', 'unlisted', 'exc-unlisted', 'exc-chained'))},
                 'family:periodic': 100, 'family:exponential': 100, 'family:fibonacci': 100, 'exhausted-strategy': 50,
                 'kind:notification': 30, 'kind:batch': 100, 'kind:single': 100, 'client:sync': 300, 'client:async': 300,
                 'source:client': 100, 'source:request': 100, 'source:request-none': 30, 'source:none': 30,
                 'cap-reached': 20, 'jitter:nonzero': 100, 'jitter:fresh-value-per-draw': 100,
                 'jitter:fresh:>=2-pauses-in-one-request': 20, 'entry:send': 300, 'entry:call': 100, 'entry:dunder-call': 100,
-                'entry:proxy': 100, 'entry:notify': 20, 'back-below-the-cap': 20, 'session:followup-requests': 100, 'sleeps-observed': 300}}
+                'entry:proxy': 100, 'entry:notify': 20, 'back-below-the-cap': 20, 'per-request-strategy-lists-nothing': 100, 'session:followup-requests': 100, 'sleeps-observed': 300}}
 
 CODES = {'none': None, 'empty': set(), 'one': {2001}, 'several': {2001, 2002}}
 EXCS = {'none': None, 'empty': set(), 'one': {ConnectionError}, 'several': {ConnectionError, TimeoutError}}
@@ -119,6 +119,15 @@ class Script:
         k = self.idx
         self.idx += 1
         self.texts.append(text)
+        if o == 'exc-chained':
+            # an UNLISTED exception that wraps a listed one (a backend translating a low-level error): only the exception
+            # that leaves the attempt counts
+            exc = KeyError(f'attempt{k}')
+            self.raised.append(exc)
+            try:
+                raise ConnectionResetError('low-level')
+            except ConnectionResetError as low:
+                raise exc from low
         if o.startswith('exc'):
             exc = {'exc-listed': ConnectionError, 'exc-sub': ConnectionResetError, 'exc-unlisted': KeyError}[o](f'attempt{k}')
             self.raised.append(exc)
@@ -146,7 +155,7 @@ def model_outcomes(script):
         elif o in ('listed', 'unlisted'):
             out.append({'kind': 'error-response', 'code': 2001 if o == 'listed' else 999})
         else:
-            cls = {'exc-listed': ConnectionError, 'exc-sub': ConnectionResetError, 'exc-unlisted': KeyError}[o]
+            cls = {'exc-listed': ConnectionError, 'exc-sub': ConnectionResetError, 'exc-unlisted': KeyError, 'exc-chained': KeyError}[o]
             out.append({'kind': 'exception', 'exc': cls()})
     return out
 
@@ -203,6 +212,8 @@ def run_session(ctx, spec, codes, excs, is_async, requests):
         kw = {}
         if source == 'request':
             kw['_retry_strategy'] = rs
+            if not CODES[codes] and not EXCS[excs]:
+                ctx.hit('per-request-strategy-lists-nothing')
         elif source == 'request-none':
             kw['_retry_strategy'] = None
         entry = r.get('entry', 'send')
@@ -379,6 +390,25 @@ def gen(ctx):
                         reqs.append({'kind': kinds[rng.randrange(2)], 'source': source, 'script': s2,
                                      'entry': rng.choice(['send', 'call', 'dunder-call', 'proxy'])})
                 yield 'session', dict(spec=spec, codes=codes, excs=excs, is_async=bool((k // 5) % 2), requests=reqs)
+
+
+def crafted(ctx):
+    """a per-request strategy REPLACES the client-wide one, also when it lists nothing at all"""
+    grid = backoff_grid(2)
+    k = 0
+    for script in itertools.product(_OUT, repeat=3):
+        for kind in ('single', 'batch'):
+            k += 1
+            yield 'session', dict(spec=grid[k % len(grid)], codes=('none', 'empty')[k % 2], excs=('none', 'empty', 'none')[k % 3],
+                                  is_async=bool(k % 2), requests=[{'kind': kind, 'source': 'request', 'script': list(script) + ['ok']}])
+
+
+_gen_sampled = gen
+
+
+def gen(ctx):
+    yield from crafted(ctx)
+    yield from _gen_sampled(ctx)
 
 
 KINDS = {'session': run_session}
